@@ -2,11 +2,13 @@
 
 Workload : seeded well-formed FlowIR documents (checks/_c11_gen.py: 2-7 components over 1-3 stages,
            relative/absolute references with ref/output/copy/link, variables in global/stage/component
-           layers and chains, options with documented values, replication/aggregation, declaration order
+           layers and chains, array variables indexed by a literal / another variable / %(replica)s in
+           arguments, executable, lsf.queue and numberThreads, options with documented values, replication/aggregation, declaration order
            shuffled) and, per document, EVERY applicable single-fault mutant: drop a referenced component,
            rename a reference, add a back edge / self reference, duplicate an id, misspell or add a key at
            every level, give every present (and two absent) option(s) a value of the wrong type, remove a
-           used variable that one layer defines.
+           used variable that one layer defines (plain, array and array-index variables), rename the array /
+           the index variable at the place of use.
 Observed : WorkflowGraph.graphFromFlowIR(doc, manifest, primitive=False)            (dictionary API)
            ExperimentConfigurationFactory.configurationForExperiment(pkg, validate=True, primitive=False)
                                                                                      (file API, package on disk)
@@ -315,14 +317,19 @@ def base_key(base):
     d = base["doc"]
     comps = d["components"]
     layers = sorted({l[0][0] for l in base["var_layers"].values()})
-    return "b|c%d|s%d|e%d|r%d|%s" % (len(comps), len({c.get("stage", 0) for c in comps}),
-                                    min(len(G.edges_of(d)), 6), int(base["replicated"]), "".join(x[0] for x in layers))
+    return "b|c%d|s%d|e%d|r%d|%s|a%d" % (len(comps), len({c.get("stage", 0) for c in comps}),
+                                         min(len(G.edges_of(d)), 6), int(base["replicated"]),
+                                         "".join(x[0] for x in layers), min(len(base.get("arrays", [])), 3))
 
 
 def mut_key(m, base):
     where = m["where"]
     opt = ".".join(str(x) for x in where[1:]) if m["kind"] in ("wrong-type", "misspelt-key", "extra-key") else ""
     return "m|%s|%s|%s|c%d|r%d" % (m["kind"], m.get("class"), opt, len(base["doc"]["components"]), int(base["replicated"]))
+
+
+ALWAYS_FILE_API = ("duplicate-id", "remove-index-variable", "remove-array-variable", "rename-index-at-use",
+                   "rename-array-at-use", "index-out-of-range")
 
 
 def run_job(job, w):
@@ -363,12 +370,17 @@ def run_job(job, w):
         w.distinct(base_key(base))
         if base["replicated"]:
             w.count("base_replicated")
+        if base.get("arrays"):
+            w.count("base_with_array_variables")
+            w.count("array_access_sites", len(base["arrays"]))
+            for a in base["arrays"]:
+                w.count("array_site_" + ".".join(a["path"]) + ("_replica" if a.get("replica") else ("_var_index" if a["idx"] else "_literal_index")))
         ms = G.mutants(rnd, base, all_values=job.get("all_values", True))
         if len(w.samples) < 1:
             w.sample({"base": doc, "n_mutants": len(ms), "first_mutant": {k: ms[0][k] for k in ("kind", "class", "where")}})
         for k, m in enumerate(ms):
             apis = ["dict"]
-            if m["kind"] == "duplicate-id" or (this + k) % job["file_every"] == 0:
+            if m["kind"] in ALWAYS_FILE_API or (this + k) % job["file_every"] == 0:
                 apis.append("file")
             outs = {}
             for api in apis:
@@ -380,6 +392,10 @@ def run_job(job, w):
                 outs[api] = out
             mrec = {kk: m[kk] for kk in m if kk != "doc"}
             for api, out in outs.items():
+                if m.get("info_only"):
+                    # not covered by the statement's fault list: recorded, never judged
+                    w.count("info_%s_%s" % (m["kind"], out["status"] if out["status"] != "rejected" else "rejected_" + str(out.get("family"))))
+                    continue
                 w.evaluated()
                 w.count("mutant_cases")
                 w.count("mutant_%s_api" % api)
@@ -459,7 +475,8 @@ def main():
                        "on the dictionary API a FlowIRException / FlowIRSyntaxException subclass is an accepted "
                        "rejection (duplicate identifiers are detected while FlowIRConcrete is constructed, before the "
                        "loader's error collection starts)",
-                       "the file API is exercised for every duplicate-id mutant and a deterministic 1-in-k sample of the others",
+                       "the file API is exercised for every duplicate-id and array-variable mutant and a deterministic 1-in-k sample of the others",
+                       "an out-of-range literal array index is recorded as information only (info_index-out-of-range_* counters), not judged",
                    ])
     rp = vlib.load_replay(sys.argv)
     if rp is not None:
@@ -491,6 +508,9 @@ def main():
     for kind in ("drop-referenced-component", "rename-reference", "back-edge", "self-reference", "duplicate-id",
                  "misspelt-key", "extra-key", "wrong-type", "remove-variable"):
         c.floor("mutant_" + kind, 1000 if thorough else 100)
+    for kind in ("remove-index-variable", "remove-array-variable", "rename-index-at-use", "rename-array-at-use"):
+        c.floor("mutant_" + kind, 300 if thorough else 40)
+    c.floor("base_with_array_variables", 300 if thorough else 60)
     sys.exit(c.finish())
 
 
